@@ -363,6 +363,24 @@ where
     }
     str_job!("u/str", U);
     str_job!("i/str", I);
+    // BYTE-ALPHABET SWEEP: every byte value 0..=255 in six short templates, for every radix 2..=36. The
+    // digit alphabet of a radix is small, so which bytes are digits is decided completely instead of by
+    // a list of plausible foreign characters (control bytes, case-folding twins c ^ 0x20, c | 0x80 ...)
+    jobs.push(Job::new(job_name::<U>("alphabet"), move |ctx| {
+        // complete on one configuration per digit type (the alphabet does not depend on N); elsewhere the
+        // radices {2, 10, 11, 16, 36} with the first two templates
+        let full = matches!((U::DIGIT_BITS, U::N), (8, 3) | (16, 2) | (32, 1) | (64, 2));
+        let all = move || {
+            (2..=36u32).filter(move |r| full || matches!(r, 2 | 10 | 11 | 16 | 36)).flat_map(move |radix| {
+                (0..=255u8).flat_map(move |b| {
+                    let t: [Vec<u8>; 6] = [vec![b], vec![b'1', b], vec![b, b'1'], vec![b'+', b], vec![b'-', b], vec![b'1', b'0', b, b'1']];
+                    t.into_iter().take(if full { 6 } else { 2 }).map(move |v| (Bytes(v), radix))
+                })
+            })
+        };
+        ctx.enumerate("alphabet_u", "every byte 0..=255 in six short templates x every radix 2..=36", all(), eval_bad_utf8::<U>);
+        ctx.enumerate("alphabet_i", "every byte 0..=255 in six short templates x every radix 2..=36", all(), eval_bad_utf8::<I>);
+    }));
     macro_rules! dig_job {
         ($name:literal, $T:ty) => {
             jobs.push(Job::new(job_name::<U>($name), move |ctx| {
@@ -391,7 +409,7 @@ fn main() {
     runner::main(
         Property {
             id: "C10",
-            rule: "Grammar-based strings `sign? zeros{0..k} digits` for every radix 2..=36 in every run (cycled deterministically): digits come from the reference conversion of {0, 1, small, unsigned MAX, signed MAX, |MIN|, 2^W, 2^(W+1) (+-2), r^j +- 1, structured patterns} or are random digit strings of length capacity(r) + {-2..2}, or prefix-structured strings numeral(P) ++ m whole chunks (P a structured binary pattern, so the parser's running value has zero / extreme binary digits at a chunk boundary), optionally preceded by whole chunks of zeros; k up to 2*capacity + 2 redundant leading zeros; lower/upper/mixed case letters; invalid strings = one foreign byte (space, tab, newline, NUL, '_', '.', '+', '-', '/', ':', '@', '[', '`', '{', a digit >= radix, multi-byte UTF-8 incl. a non-ASCII decimal digit) inserted at start / after the sign / middle / end of an otherwise valid string (half of them truncated to 1..5 digits so that the InvalidDigit requirement applies); empty string, lone signs, double signs; byte strings that are not UTF-8 for parse_bytes, for every radix (a byte >= 0x80 inserted or substituted anywhere, in particular the high-bit twin c|0x80 of a valid digit character, also in strings of 1-3 digits); out-of-range radices {0, 1, 37, 38, 255, 256, 257, u32::MAX}. Digit slices for from_radix_be/le: every radix 2..=256 in every run, built the same way, with excess most-significant zero digits, one digit >= radix injected, empty slice. Oracle: parse_model returns the SET of acceptable outcomes (exact Ok(v); exact PosOverflow/NegOverflow/Empty; InvalidDigit for a lone sign or a foreign byte in a body of L bytes with r^L <= 2^(W-1); any Err for a foreign byte in a longer string); parse_bytes = .ok(); FromStr = radix 10; parse_str_radix on valid input; from_radix_*: Some(v) iff all digits < radix and v < 2^W. The model is compared with the primitives' from_str_radix on a fixed corpus at start-up. NON-TRIVIAL: body length >= capacity - 1, or redundant leading zeros, or a foreign byte present, or value within 6 bits of a bound / unrepresentable. distinct = distinct (profile, job, inputs) by 64-bit hash. num_traits::Num::from_str_radix is compared with the inherent function on every string (sibling entry point).",
+            rule: "Grammar-based strings `sign? zeros{0..k} digits` for every radix 2..=36 in every run (cycled deterministically): digits come from the reference conversion of {0, 1, small, unsigned MAX, signed MAX, |MIN|, 2^W, 2^(W+1) (+-2), r^j +- 1, structured patterns} or are random digit strings of length capacity(r) + {-2..2}, or prefix-structured strings numeral(P) ++ m whole chunks (P a structured binary pattern, so the parser's running value has zero / extreme binary digits at a chunk boundary), optionally preceded by whole chunks of zeros; k up to 2*capacity + 2 redundant leading zeros; lower/upper/mixed case letters; invalid strings = one foreign byte (space, tab, newline, NUL, '_', '.', '+', '-', '/', ':', '@', '[', '`', '{', a digit >= radix, multi-byte UTF-8 incl. a non-ASCII decimal digit) inserted at start / after the sign / middle / end of an otherwise valid string (half of them truncated to 1..5 digits so that the InvalidDigit requirement applies); empty string, lone signs, double signs; byte strings that are not UTF-8 for parse_bytes, for every radix (a byte >= 0x80 inserted or substituted anywhere, in particular the high-bit twin c|0x80 of a valid digit character, also in strings of 1-3 digits); out-of-range radices {0, 1, 37, 38, 255, 256, 257, u32::MAX}. A deterministic BYTE-ALPHABET SWEEP decides the digit alphabet completely: every byte value 0..=255 in the templates [b], 1b, b1, +b, -b, 10b1 for every radix 2..=36 on one configuration per digit type (D8x3, D16x2, D32x1, D64x2), and in the templates [b], 1b for the radices {2, 10, 11, 16, 36} on every other configuration (a byte is accepted exactly when it is a digit of the radix, or a sign in first position followed by a digit). Digit slices for from_radix_be/le: every radix 2..=256 in every run, built the same way, with excess most-significant zero digits, one digit >= radix injected, empty slice. Oracle: parse_model returns the SET of acceptable outcomes (exact Ok(v); exact PosOverflow/NegOverflow/Empty; InvalidDigit for a lone sign or a foreign byte in a body of L bytes with r^L <= 2^(W-1); any Err for a foreign byte in a longer string); parse_bytes = .ok(); FromStr = radix 10; parse_str_radix on valid input; from_radix_*: Some(v) iff all digits < radix and v < 2^W. The model is compared with the primitives' from_str_radix on a fixed corpus at start-up. NON-TRIVIAL: body length >= capacity - 1, or redundant leading zeros, or a foreign byte present, or value within 6 bits of a bound / unrepresentable. distinct = distinct (profile, job, inputs) by 64-bit hash. num_traits::Num::from_str_radix is compared with the inherent function on every string (sibling entry point).",
             assumptions: &[
                 "digits()/from_digits()/to_bits()/from_bits() are the trusted observation channel",
                 "the error kind for LONG invalid strings is outside the property; parse_str_radix on invalid input is documented to panic and not called",
